@@ -15,6 +15,10 @@ EXTRA_SEEDS = [
     # functions calling each other across two modules (with its own library module)
     ('import m2\npub fn ping(n) { m2.pong(n) }\npub fn top() { ping(1) }\n', 'import m1\npub fn pong(n) { m1.ping(n) }\npub type T { W }\n'),
     ('import m2.{pong}\npub fn ping(n) { pong(n) }\n', 'import m1.{ping}\npub fn pong(n) { ping(n) }\n'),
+    # two modules importing each other where the back reference goes to ANOTHER, non-recursive function with a concrete type:
+    # whatever the analysis makes of the cycle must not depend on which function is asked about first
+    ('import m2\npub fn one() { 1 }\npub fn f() { m2.two() }\npub fn k() { #(f(), one()) }\n', 'import m1\npub fn two() { m1.one() }\npub fn three() { [two()] }\n'),
+    ('import m2.{two}\npub fn one() { "s" }\npub fn f() { two() <> one() }\n', 'import m1.{one}\npub fn two() { one() }\n'),
     # a cycle of imports through three modules, with the calls going round it (qualified and unqualified)
     ('import m2\npub fn f1(n) { m2.f2(n) }\npub fn top() { f1(1) }\n', 'import m3\npub fn f2(n) { m3.f3(n) }\n', 'import m1\npub fn f3(n) { m1.f1(n) }\n'),
     ('import m2.{f2}\npub fn f1(n) { f2(n) }\n', 'import m3.{f3}\npub fn f2(n) { f3(n) + 1 }\n', 'import m1.{f1}\npub fn f3(n) { f1(n) }\n'),
